@@ -78,6 +78,7 @@ type thr struct {
 	outContent map[uint32][]uint32
 	mergeSeen  bool
 	gid        int64           // goroutine id while alive
+	free       bool            // free-running (a `par` op): yield points do not park it
 	blocked    bool            // waiting for the version-set mutex
 	relVer     version.Version // version whose Dec the thread is parked after
 	zero       bool            // that Dec returned 0
@@ -144,7 +145,7 @@ func hook(id string) {
 
 func (s *sched) park(id string) {
 	t := s.self()
-	if t == nil {
+	if t == nil || t.free {
 		return
 	}
 	s.events <- evt{t, id}
@@ -949,6 +950,57 @@ func (k *kase) exec(op string) string {
 		}
 		res = fmt.Sprintf("job=%d", len(k.jobs))
 		k.jobs = append(k.jobs, t)
+	case "par":
+		// the listed jobs (flushes parked before Commit(), rollup-done commits not yet started) run
+		// their commits truly concurrently, un-scheduled, released together
+		var ts []*thr
+		for _, w := range ws[1:] {
+			ts = append(ts, k.jobs[num(w[1:])])
+		}
+		for _, t := range ts {
+			t.free = true
+		}
+		for _, t := range ts {
+			if t.alive {
+				k.s.resumeT(t)
+			} else {
+				k.s.start(t, k.body(t))
+			}
+		}
+		got, ok := k.s.settle(ts)
+		if !ok {
+			k.broken = "concurrent commits did not finish"
+			res = "timeout"
+			break
+		}
+		var parts []string
+		for _, t := range ts {
+			t.free = false
+			if got[t] != "done" {
+				k.broken = "thread " + t.name + " stopped at " + got[t] + " during a concurrent commit"
+			}
+			t.at, t.done, t.alive = "done", true, false
+			parts = append(parts, "done")
+			if t.panicV != nil {
+				k.failf("panic", -1, "thread %s panicked: %v", t.name, t.panicV)
+				t.panicV = nil
+			}
+			if t.kind == "flush" && t.err == nil {
+				k.swaps++
+				for _, p := range t.payload {
+					k.committed[p[0]] = append(k.committed[p[0]], p[1])
+				}
+			}
+		}
+		for _, r := range k.readers {
+			if r.snap != nil && !r.closing {
+				r.sawSwap = true
+			}
+		}
+		cur, _ := version.VerifC02State(k.fv)
+		k.checkCommitted(cur, fmt.Sprintf("after %d concurrent commits returned (%s)", len(ts), strings.Join(ws[1:], ",")))
+		res = "at=" + strings.Join(parts, "+")
+		k.nonTrivial()
 	case "cleanup":
 		res = "ok"
 	}
@@ -1184,7 +1236,7 @@ var writerStages = []string{"allocd", "ready", "cSnapped", "cSwapped"}
 const (
 	nWitness  = 2
 	nDirectDO = 32 // 4 park points of deleteObsoleteFiles × {flush, compact} × 4 writer stages
-	nDirectCC = 12 // overlapping committers
+	nDirectCC = 16 // overlapping committers (12 scheduled through the mutex, 4 released together)
 	nDirected = nWitness + nDirectDO + nDirectCC
 )
 
@@ -1229,6 +1281,10 @@ func (k *kase) directDO(rng *rand.Rand, d int) {
 // goes on when the first releases it. Both returned commits must be in the current version.
 func (k *kase) directCC(rng *rand.Rand, d int) {
 	kinds := [][2]string{{"flush", "flush"}, {"flush", "compact"}, {"compact", "flush"}, {"flush", "rollup"}, {"rollup", "flush"}, {"compact", "rollup"}}
+	if d >= 12 {
+		k.directPar(rng, d-12)
+		return
+	}
 	pair := kinds[d%6]
 	holdAt := []string{"cSnapped", "cSwapped"}[(d/6)%2]
 	k.setupFlushes(rng, 2)
@@ -1270,6 +1326,35 @@ func (k *kase) directCC(rng *rand.Rand, d int) {
 	k.finish(t1)           // releases the mutex on its way: t2 goes on
 	k.finish(t2)
 	k.finish(t1)
+	k.drain(rng)
+}
+
+// directPar: several rounds of 2–3 commits (flushes, optionally a rollup-done commit) whose
+// Commit() calls are released together and run without the scheduler.
+func (k *kase) directPar(rng *rand.Rand, d int) {
+	k.setupFlushes(rng, 1)
+	for round := 0; round < 4 && k.broken == ""; round++ {
+		n := 2 + (d+round)%2
+		op := "par"
+		for i := 0; i < n; i++ {
+			k.exec("spawn flush " + k.newPayload(rng))
+			k.runUntil(k.lastJob(), "ready")
+			op += " " + k.lastJob()
+		}
+		if d%2 == 1 {
+			cur, _ := version.VerifC02State(k.fv)
+			var fs []int
+			for f := range cur.GetRollupFiles() {
+				fs = append(fs, int(f.Int64()))
+			}
+			sort.Ints(fs)
+			if len(fs) > 0 {
+				k.exec("spawn rollup " + strconv.Itoa(fs[0]))
+				op += " " + k.lastJob()
+			}
+		}
+		k.exec(op)
+	}
 	k.drain(rng)
 }
 
@@ -1350,6 +1435,18 @@ func (k *kase) random(rng *rand.Rand, steps int) {
 			}
 			if len(wb) > 0 {
 				k.exec("run " + wb[rng.Intn(len(wb))])
+				continue
+			}
+		}
+		if !k.anyBlocked() && k.lockFree() && rng.Intn(8) == 0 {
+			var ready []string
+			for _, t := range k.jobs {
+				if t.kind == "flush" && t.at == "ready" && !t.done {
+					ready = append(ready, t.name)
+				}
+			}
+			if len(ready) >= 2 {
+				k.exec("par " + strings.Join(ready, " "))
 				continue
 			}
 		}
